@@ -3,7 +3,7 @@ FRAGMENT = {
  'C18': {'bin': 'w_proxy',
  'world': 'c18',
  'level': 'exploration',
- 'quick': {'runs': 40000, 'budget_s': 30, 'workers': 16},
+ 'quick': {'runs': 100000, 'budget_s': 30, 'workers': 16},
  'thorough': {'runs': 600000, 'budget_s': 900, 'workers': 16, 'det_sample': 100},
  'level_text': 'seeded exploration of one simulated universe per run: the real daemon (daemon/proxyd.c main(), select loop or acquisition thread '
                'with deferred cancellation), real proxy-msg.c and 1-5 real proxy-client.c clients as tasks over a simulated kernel (AF_UNIX '
